@@ -146,6 +146,8 @@ static std::vector<Buf *> make_chunks(const Case &c, std::vector<ByteBuffer> &ar
     for (auto &ch : c.chunks) { bufs.push_back(new Buf(ch[0], ch[1], ch[2], salt)); salt += 37; }
     for (auto *b : bufs) arr.push_back(b->b);
     }
+    // an empty chunk may also be the null buffer (byte_buffer_null(): no memory at all) - size 3 with nothing used stands for it
+    for (size_t i = 0; i < arr.size(); i++) if (c.chunks[i][0] == 3 && c.chunks[i][1] == 0 && c.chunks[i][2] == 0) byte_buffer_null(&arr[i]);
     for (size_t i = c.active; i < arr.size(); i++) designated.insert(designated.end(), arr[i].data + arr[i].offset, arr[i].data + arr[i].used);
     return bufs;
 }
